@@ -160,6 +160,27 @@ Section ListGet.
     - rewrite !skipn_all2 by (unfold len in *; lia). reflexivity.
   Qed.
 
+  Lemma skipn_length_app a b : skipn (length a) (a ++ b) = b.
+  Proof. induction a as [|h t IH]; [reflexivity | exact IH]. Qed.
+
+  Lemma firstn_length_app a b : firstn (length a) (a ++ b) = a.
+  Proof. induction a as [|h t IH]; [reflexivity | simpl; f_equal; exact IH]. Qed.
+
+  Lemma slice_app_mid a b c : slice (a ++ b ++ c) (len a) (length b) = b.
+  Proof.
+    unfold slice, len. rewrite Nat2Z.id, skipn_length_app. apply firstn_length_app.
+  Qed.
+
+  Lemma slice_slice a lo cnt i k :
+    0 <= lo -> lo + Z.of_nat cnt <= len a -> 0 <= i -> i + Z.of_nat k <= Z.of_nat cnt ->
+    slice (slice a lo cnt) i k = slice a (lo + i) k.
+  Proof.
+    intros H0 H Hi Hk. apply get_ext.
+    - rewrite !len_slice; try lia. rewrite len_slice by lia. lia.
+    - intros j Hj. rewrite len_slice in Hj by (try rewrite len_slice by lia; lia).
+      rewrite !get_slice by lia. f_equal. lia.
+  Qed.
+
   (** ** item 6: the copy loops *)
   Lemma copy_range_spec : forall cnt (dst src : list T) i,
     0 <= i -> i + Z.of_nat cnt <= len src -> i + Z.of_nat cnt <= len dst ->
@@ -697,8 +718,8 @@ Section Count.
   Lemma In_bucket_cat order l x : In x (bucket_cat order l) <-> In x l /\ In (dgf x) order.
   Proof.
     unfold bucket_cat. rewrite in_flat_map. split.
-    - intros (c & Hc & Hx). apply In_bucket in Hx. destruct Hx as [Hx <-]. tauto.
-    - intros [Hx Hc]. exists (dgf x). split; [exact Hc|]. apply In_bucket. tauto.
+    - intros (c & Hc & Hx). apply In_bucket in Hx. destruct Hx as [Hx <-]. split; assumption.
+    - intros [Hx Hc]. exists (dgf x). split; [exact Hc|]. apply In_bucket. split; [exact Hx | reflexivity].
   Qed.
 
   Lemma bucket_cat_cons_notin o s l : ~ In (dgf s) o -> bucket_cat o (s :: l) = bucket_cat o l.
@@ -725,7 +746,7 @@ Section Count.
     - rewrite bucket_cat_nil_r. constructor.
     - destruct (in_split _ _ (H s ltac:(left; reflexivity))) as (o1 & o2 & E). subst order.
       pose proof (NoDup_remove_2 _ _ _ ND) as N.
-      rewrite bucket_cat_cons_in by (intros X; apply N; apply in_or_app; tauto).
+      rewrite bucket_cat_cons_in by (intros X; apply N; apply in_or_app; ((left; exact X) || (right; exact X))).
       apply Permutation_cons_app.
       specialize (IH ltac:(intros x Hx; apply H; right; exact Hx)).
       rewrite bucket_cat_app, bucket_cat_cons_l in IH. exact IH.
@@ -1007,6 +1028,49 @@ Section Count.
     rewrite start_iota_out by lia. rewrite start_iota_in by lia.
     change (128 + Z.of_nat 128) with 256. reflexivity.
   Qed.
+  (** ** the cells of bucket [c] in the layout *)
+  Lemma bucket_cat_bucket_slice order c l :
+    NoDup order -> In c order ->
+    slice (bucket_cat order l) (start order c l) (length (bucket c l)) = bucket c l.
+  Proof.
+    intros ND Hc. apply in_split in Hc. destruct Hc as (o1 & o2 & ->).
+    pose proof (NoDup_remove_2 _ _ _ ND) as N.
+    rewrite start_split by (intros X; apply N; apply in_or_app; left; exact X).
+    rewrite bucket_cat_app, bucket_cat_cons_l. apply slice_app_mid.
+  Qed.
+
+  (** ** the whole counting pass on the sub-range [a[lo .. lo+cnt-1]], plain layout
+      (msdString with [off = 1], [M = R + 1]; msdUint and msdInt below the top byte with
+      [off = 0], [M = R]) *)
+  Lemma msd_pass_plain cnt a lo (aux : list K) :
+    0 <= off -> 0 <= M -> 0 <= lo -> lo + Z.of_nat cnt <= len a -> Z.of_nat cnt <= len aux ->
+    digits_ok (slice a lo cnt) ->
+    exists c1 c2 count' aux' a',
+      count_freq_idx digit off cnt a lo (repeat 0 (Z.to_nat (M + 1))) = Ok c1 /\
+      cumulate (Z.to_nat M) c1 0 = Ok c2 /\
+      distribute_idx digit off cnt a lo c2 aux = Ok (count', aux') /\
+      copy_back cnt a aux' lo lo = Ok a' /\
+      len a' = len a /\ len aux' = len aux /\
+      slice a' lo cnt = bucket_cat (iota (- off) (Z.to_nat M)) (slice a lo cnt) /\
+      same_outside a a' lo (lo + Z.of_nat cnt - 1) /\
+      len count' = M + 1 /\
+      (forall r, 0 <= r < M -> get count' r = Ok (cnt_lt (r + 1 - off) (slice a lo cnt))) /\
+      get count' M = Ok (Z.of_nat cnt).
+  Proof.
+    intros Hoff HM H0 Ha Hx D.
+    pose proof (length_slice a lo cnt H0 Ha) as Ll.
+    destruct (count_freq_spec (slice a lo cnt) Hoff HM D) as (c1 & H1 & L1 & G1).
+    destruct (cumulate_spec (slice a lo cnt) c1 HM D L1 G1) as (c2 & H2 & L2 & G2).
+    destruct (distribute_plain (slice a lo cnt) c2 aux Hoff HM D L2 G2)
+      as (count' & aux' & Hd & Hf & _ & Lx & Lc & Gc & GM); [lia|].
+    destruct (copy_back_spec cnt a aux' lo H0 Ha ltac:(lia)) as (a' & Hcb & La' & Hsl & Hso).
+    exists c1, c2, count', aux', a'.
+    rewrite count_freq_idx_slice, distribute_idx_slice by assumption.
+    rewrite Ll in *.
+    split; [exact H1|]. split; [exact H2|]. split; [exact Hd|]. split; [exact Hcb|].
+    split; [exact La'|]. split; [exact Lx|]. split; [rewrite Hsl; exact Hf|].
+    split; [exact Hso|]. split; [exact Lc|]. split; [exact Gc | exact GM].
+  Qed.
 End Count.
 
 (** * the signed-top-byte rotation ([off = 0], [M = 256]) and the whole LSD pass *)
@@ -1161,5 +1225,39 @@ Section Rotate.
     f_equal. f_equal. rewrite <- Hf. apply get_ext.
     - rewrite len_firstn by lia. exact La'.
     - intros k Hk. rewrite get_firstn by (unfold len in *; lia). apply Hin. unfold len in *. lia.
+  Qed.
+  (** ** the counting pass of msdInt on the top byte (rotated layout) *)
+  Lemma msd_pass_rot cnt a lo (aux : list K) :
+    0 <= lo -> lo + Z.of_nat cnt <= len a -> Z.of_nat cnt <= len aux ->
+    digits_ok digit dgf 0 256 (slice a lo cnt) ->
+    exists c1 c2 c3 count' aux' a',
+      count_freq_idx digit 0 cnt a lo (repeat 0 (Z.to_nat (256 + 1))) = Ok c1 /\
+      cumulate (Z.to_nat 256) c1 0 = Ok c2 /\
+      msd_rotate c2 = Ok c3 /\
+      distribute_idx digit 0 cnt a lo c3 aux = Ok (count', aux') /\
+      copy_back cnt a aux' lo lo = Ok a' /\
+      len a' = len a /\ len aux' = len aux /\
+      slice a' lo cnt = bucket_cat dgf rot_order (slice a lo cnt) /\
+      same_outside a a' lo (lo + Z.of_nat cnt - 1) /\
+      len count' = 257 /\
+      (forall c, 0 <= c < 256 ->
+         get count' c = Ok (start dgf rot_order c (slice a lo cnt) + cnt_eq dgf c (slice a lo cnt))) /\
+      get count' 256 = Ok (Z.of_nat cnt - cnt_lt dgf 128 (slice a lo cnt) + cnt_eq dgf 0 (slice a lo cnt)).
+  Proof.
+    intros H0 Ha Hx D.
+    pose proof (length_slice a lo cnt H0 Ha) as Ll.
+    destruct (count_freq_spec digit dgf 0 256 (slice a lo cnt)) as (c1 & H1 & L1 & G1); [lia | lia | exact D |].
+    destruct (cumulate_spec digit dgf 0 256 (slice a lo cnt) c1) as (c2 & H2 & L2 & G2);
+      [lia | exact D | exact L1 | exact G1 |].
+    destruct (msd_rotate_spec (slice a lo cnt) c2 D L2 G2) as (c3 & H3 & L3 & G3 & G256).
+    destruct (distribute_rot (slice a lo cnt) c3 aux D L3 G3)
+      as (count' & aux' & Hd & Hf & _ & Lx & Lc & Gc & GM); [lia|].
+    destruct (copy_back_spec cnt a aux' lo H0 Ha ltac:(lia)) as (a' & Hcb & La' & Hsl & Hso).
+    exists c1, c2, c3, count', aux', a'.
+    rewrite count_freq_idx_slice, distribute_idx_slice by assumption.
+    rewrite Ll in *.
+    split; [exact H1|]. split; [exact H2|]. split; [exact H3|]. split; [exact Hd|]. split; [exact Hcb|].
+    split; [exact La'|]. split; [exact Lx|]. split; [rewrite Hsl; exact Hf|].
+    split; [exact Hso|]. split; [exact Lc|]. split; [exact Gc|]. rewrite GM. exact G256.
   Qed.
 End Rotate.
